@@ -299,7 +299,9 @@ func newOperator(expr parser.Expr, storage *engstore.SelectorPool, opts *query.O
 		return coalesce, nil
 
 	case *logicalplan.RemoteExecution:
-		qry, err := e.Engine.NewRangeQuery(&promql.QueryOpts{}, e.Query, opts.Start, opts.End, opts.Step)
+		// The lookback delta in force for this query, which may have been given
+		// for this query only, also applies to the parts evaluated remotely.
+		qry, err := e.Engine.NewRangeQuery(&promql.QueryOpts{LookbackDelta: opts.LookbackDelta}, e.Query, opts.Start, opts.End, opts.Step)
 		if err != nil {
 			return nil, err
 		}
